@@ -100,8 +100,11 @@ PROPS = {
    "parent": dict(fields=[], laws=["law_valid"]),
    "split_at": dict(fields=[], laws=["law_valid"]),
    "get": dict(fields=[], laws=["law_valid"]),
-   "rel": dict(fields=[], laws=["law_valid"]),
+   # law_alias: the prefix/suffix operations on views into the operand's own buffer (a returned pointer that is
+   # not at a token boundary is invalid text)
+   "rel": dict(fields=[], laws=["law_valid", "law_alias"]),
   },
+  augment_budget=120000,
   rule="corpus + bounded-exhaustive + seeded random lines over every safe constructor/accessor/splitter/slicer/prefix-suffix op and mutator histories; a case is non-trivial when an argument contains '~', '/' or a multi-byte char",
   theorems="Jp.C01.* (validity invariant per operation, history_valid), with C02 validate_ok_iff, C03 enc_valid/fromEncoded_ok_iff, C04, C11 history_refines, C12, C13",
  ),
